@@ -101,3 +101,20 @@ package fox
 //@   loop 2: invariant forall j int :: {old(s.route.mws)[j]} !(len(old(s.route.mws)) <= j && j < cap(old(s.route.mws))) ==> old(s.route.mws)[j] == old(s.route.mws[j])
 //@   loop 2: invariant cap(old(s.route.mws)) == len(old(s.route.mws)) ==> arrayOf(old(s.route.mws)) == old(arrayOf(s.route.mws))
 //@   loop 2: decreases len(m) - rangeindex#2
+
+//@ -- ---------------------------------------------------------------- C13: New wires the special handlers
+
+//@ extern (*Router).newTree
+//@   ensures result != nil
+
+//@ func New props C13,C19 partial
+//@   requires forall k int :: {opts[k]} 0 <= k && k < len(opts) ==> opts[k] != nil
+//@   modifies E[middleware], published, pubCount
+//@   ensures failed: result1 != nil ==> result0 == nil
+//@   ensures no-route: result1 == nil ==> result0 != nil && result0.noRoute == chain(result0.mws, NoRouteHandler, result0.noRouteBase, 0)
+//@   ensures redirect: result1 == nil ==> result0.tsrRedirect == chain(result0.mws, RedirectHandler, defaultRedirectTrailingSlashHandler, 0)
+//@   assert-at call applyMiddleware#2 : no-method: arg_scope == NoMethodHandler && arg_mws == r.mws && arg_h == r.noMethod
+//@   assert-at call applyMiddleware#4 : options: arg_scope == OptionsHandler && arg_mws == r.mws && arg_h == r.autoOptions
+//@   assert-at after applyMiddleware#2 : no-method-set: true
+//@   loop 1: invariant r != nil && fresh(r) && -1 <= rangeindex && rangeindex < len(opts)
+//@   loop 1: invariant forall k int :: {r.mws[k]} 0 <= k && k < len(r.mws) ==> r.mws[k].m != nil
